@@ -366,6 +366,31 @@ pub fn run_c02(o: &Opts) {
             continue;
           }
         };
+        // every hole the generator wrote is spelled `$V<i>` (`$$$R` for a run) in a sigil-free text: whatever shape the
+        // pattern parses to, none of these spellings may survive as LITERAL token text (a hole that is not recognised
+        // as a meta variable binds nothing) — decided on the pattern tree, independently of the shape precondition
+        {
+          use ast_grep_core::Language;
+          fn leaf_texts(p: &PatternNode, acc: &mut Vec<String>) {
+            match p {
+              PatternNode::Terminal { text, .. } => acc.push(text.to_string()),
+              PatternNode::Internal { children, .. } => children.iter().for_each(|c| leaf_texts(c, acc)),
+              PatternNode::MetaVar { .. } => {}
+            }
+          }
+          let mut leaves = vec![];
+          leaf_texts(&p0.node, &mut leaves);
+          let ex = lang.expando_char();
+          let mut spelled: Vec<String> = cut.holes.iter().map(|(name, _)| format!("{ex}{name}")).collect();
+          if let Some((name, _)) = &cut.run {
+            spelled.push(format!("{ex}{ex}{ex}{name}"));
+          }
+          out.checked();
+          if let Some(sp) = spelled.iter().find(|sp| leaves.iter().any(|l| l == *sp)) {
+            out.oracle_fail("", &format!("{lang}: in the pattern {:?} (cut from {:?}) the hole spelled {:?} after pre-processing is not recognised as a meta variable: it stays the literal token text of the pattern tree {:?}", cut.text, t.text(), sp, p0.node),
+              json!({"stream": "c02-hole-literal", "lang": lang.to_string(), "pattern": cut.text, "code": t.text()}));
+          }
+        }
         if !is_cut(&p0.node, &t, &cut) && precondition_holds {
           out.checked();
           out.oracle_fail("", &format!("{lang}: the pattern {:?} cut from {:?} parses to the shape of the code when pre-processed as documented, but the implementation builds a different pattern tree ({:?})", cut.text, t.text(), p0.node),
